@@ -5,14 +5,22 @@ use ff::{Field, PrimeField};
 use group::{Curve, Group};
 use midnight_curves::{Bls12, Fq as F, G1Projective, G2Projective};
 use midnight_proofs::{
-    poly::{commitment::Params, kzg::params::ParamsKZG},
+    poly::{
+        commitment::{Params, PolynomialCommitmentScheme},
+        kzg::{
+            params::{ParamsKZG, ParamsVerifierKZG},
+            KZGCommitmentScheme,
+        },
+        EvaluationDomain,
+    },
     utils::SerdeFormat,
 };
+use mzkh::family::FamParams;
 use mzkh::Ctx;
 use serde_json::json;
 
 use crate::{
-    keys::{in_pool, secret_of, setup, POOLS},
+    keys::{in_pool, params_interchangeable, secret_of, setup, POOLS},
     ser::{compatible, fhex, g1_bytes, g1_len, g2_bytes, hex, FORMATS},
 };
 
@@ -64,7 +72,114 @@ fn slice_params(b: &[u8], fmt: SerdeFormat) -> Option<(u32, Vec<Vec<u8>>, Vec<Ve
     Some((k, g, gl, b[o..o + l2].to_vec(), b[o + l2..].to_vec()))
 }
 
-pub fn params_cases(ctx: &mut Ctx, kmax: u32, srs_seed: u64) {
+
+type Scheme = KZGCommitmentScheme<Bls12>;
+
+/// (b) of the reload oracle: under parameter set `p` (size `2^k`, secret `s`) the monomial
+/// basis and the Lagrange basis describe the same commitment function: `commit(f)` (monomial
+/// basis) = `commit_lagrange(values of f on the domain)` (Lagrange basis) = `[f(s)]G`, for the
+/// monomials `1, X, X^(n-1)`, and seeded random polynomials. Returns the first failure.
+pub fn bases_consistent(p: &ParamsKZG<Bls12>, k: u32, s: F, rng: &mut impl rand::RngCore) -> Result<(), String> {
+    let n = 1usize << k;
+    if p.max_k() != k || p.g_lagrange().len() != n {
+        return Err(format!("size: max_k={} g_lagrange.len={}", p.max_k(), p.g_lagrange().len()));
+    }
+    let dom = EvaluationDomain::<F>::new(3, k);
+    let g = G1Projective::generator();
+    let mut polys: Vec<(String, Vec<F>)> = vec![];
+    for i in [0usize, 1, n / 2, n - 1] {
+        if i < n {
+            let mut c = vec![F::ZERO; n];
+            c[i] = F::ONE;
+            polys.push((format!("X^{i}"), c));
+        }
+    }
+    for j in 0..2 {
+        polys.push((format!("random{j}"), (0..n).map(|_| F::random(&mut *rng)).collect()));
+    }
+    for (name, coeffs) in polys {
+        let f = dom.coeff_from_vec(coeffs.clone());
+        let c1 = Scheme::commit(p, &f);
+        let evals = dom.coeff_to_lagrange(f);
+        let c2 = Scheme::commit_lagrange(p, &evals);
+        // f(s) by Horner
+        let mut fs = F::ZERO;
+        for c in coeffs.iter().rev() {
+            fs = fs * s + *c;
+        }
+        let want = (g * fs).to_affine();
+        if c1.to_affine() != want {
+            return Err(format!("commit({name}) is not [f(s)]G: the monomial basis is not [s^i]G"));
+        }
+        if c2.to_affine() != want {
+            return Err(format!("commit_lagrange({name}) differs from commit({name}): the Lagrange basis does not belong to the monomial basis"));
+        }
+    }
+    Ok(())
+}
+
+/// Everything observable of a parameter set: the three byte images, the Lagrange basis and
+/// the G2 elements through the accessors.
+fn params_view(p: &ParamsKZG<Bls12>) -> (Vec<Vec<u8>>, Vec<Vec<u8>>, Vec<u8>, Vec<u8>) {
+    (
+        FORMATS.iter().map(|(f, _)| params_bytes(p, *f)).collect(),
+        p.g_lagrange().iter().map(|q| g1_bytes(q, SerdeFormat::RawBytes)).collect(),
+        g2_bytes(&p.g2(), SerdeFormat::RawBytes),
+        g2_bytes(&p.s_g2(), SerdeFormat::RawBytes),
+    )
+}
+
+/// The reload oracle for one parameter set `orig` of size `2^k` from secret `s`: for every
+/// (write format, read format): compatible pairs must give back a set with (a) identical byte
+/// images in all formats and identical accessors, (b) consistent bases, (c) the same keys and
+/// interchangeable proofs for a family circuit that fits (`circuit_k <= k`: both sets are
+/// downsized to `circuit_k` first).
+pub fn reload_oracle(ctx: &mut Ctx, what: &str, orig: &ParamsKZG<Bls12>, k: u32, s: F, desc: &serde_json::Value, circuit: Option<(&FamParams, u64, u32)>) {
+    let base = params_view(orig);
+    let mut rng = ctx.rng(&format!("reload:{what}:{k}"));
+    if let Err(e) = bases_consistent(orig, k, s, &mut rng) {
+        ctx.oracle_fail(&format!("params-bases-inconsistent:{what}:orig"), "monomial and Lagrange bases of a parameter set do not commit consistently", json!({"case": desc, "what": what, "why": e}));
+    }
+    for (fa, an) in FORMATS.iter() {
+        let bytes = params_bytes(orig, *fa);
+        for (fb, bn) in FORMATS.iter() {
+            if !compatible(an, bn) {
+                continue;
+            }
+            let pair = format!("{an}->{bn}");
+            ctx.count(&format!("params-reload:{what}:{pair}"));
+            let p2 = match read_params(&bytes, *fb) {
+                Ok(Ok(p2)) => p2,
+                other => {
+                    ctx.oracle_fail(&format!("params-reload-rejected:{what}:{pair}"), "parameters written then read in a compatible format were rejected", json!({"case": desc, "what": what, "pair": pair, "result": format!("{:?}", other.map(|r| r.map(|_| "ok")))}));
+                    continue;
+                }
+            };
+            // (a)
+            let v2 = params_view(&p2);
+            if v2 != base || p2.max_k() != k {
+                let which = if v2.0 != base.0 { "bytes" } else if v2.1 != base.1 { "g_lagrange" } else { "g2/s_g2" };
+                ctx.oracle_fail(&format!("params-reload-differs:{what}:{which}:{pair}"), "a reloaded parameter set differs from the written one", json!({"case": desc, "what": what, "pair": pair, "differs": which}));
+            }
+            // (b)
+            if let Err(e) = bases_consistent(&p2, k, s, &mut rng) {
+                ctx.oracle_fail(&format!("params-bases-inconsistent:{what}:{pair}"), "monomial and Lagrange bases of a reloaded parameter set do not commit consistently (commit != commit_lagrange on the same polynomial)", json!({"case": desc, "what": what, "pair": pair, "why": e}));
+            }
+            // (c)
+            if let Some((fp, seed, ck)) = circuit {
+                if ck <= k {
+                    let mut a = orig.clone();
+                    a.downsize(ck);
+                    let mut b = p2.clone();
+                    b.downsize(ck);
+                    params_interchangeable(ctx, &format!("{what}:{pair}"), fp, seed, ck, &a, &b, json!({"case": desc, "what": what, "pair": pair, "circuit_k": ck}));
+                }
+            }
+        }
+    }
+}
+
+pub fn params_cases(ctx: &mut Ctx, kmax: u32, srs_seed: u64, circuit: Option<(&FamParams, u64, u32)>) {
     let s = secret_of(srs_seed);
     let g = G1Projective::generator();
     let big = setup(kmax, srs_seed);
@@ -130,6 +245,36 @@ pub fn params_cases(ctx: &mut Ctx, kmax: u32, srs_seed: u64) {
             }
         }
     }
+    reload_oracle(ctx, "setup", &big, kmax, s, &desc, circuit);
+    // verifier parameters: s_g2 only; written, read back, and used
+    for (fa, an) in FORMATS.iter() {
+        let vp = big.verifier_params();
+        let mut vb = vec![];
+        vp.write(&mut vb, *fa).unwrap();
+        if vb != g2_bytes(&big.s_g2(), *fa) {
+            ctx.oracle_fail("verifier-params-bytes", "ParamsVerifierKZG::write does not write s_g2 alone", json!({"case": desc, "fmt": an}));
+        }
+        for (fb, bn) in FORMATS.iter() {
+            if !compatible(an, bn) {
+                continue;
+            }
+            ctx.count("verifier-params-roundtrip");
+            let r = mzkh::catch(|| {
+                let mut rd = &vb[..];
+                ParamsVerifierKZG::<Bls12>::read(&mut rd, *fb).map(|v| (v, rd.len())).map_err(|e| e.to_string())
+            });
+            match r {
+                Ok(Ok((v2, rest))) => {
+                    let mut vb2 = vec![];
+                    v2.write(&mut vb2, *fa).unwrap();
+                    if vb2 != vb || rest != 0 {
+                        ctx.oracle_fail("verifier-params-roundtrip-bytes", "verifier parameters re-serialise to different bytes after write/read", json!({"case": desc, "pair": format!("{an}->{bn}")}));
+                    }
+                }
+                other => ctx.oracle_fail("verifier-params-roundtrip-rejected", "verifier parameters written then read were rejected", json!({"case": desc, "pair": format!("{an}->{bn}"), "result": format!("{:?}", other.map(|r| r.map(|_| "ok")))})),
+            }
+        }
+    }
     // downsize to every k' (also k' = kmax: no-op) under every pool
     for kp in 0..=kmax {
         let fresh = setup(kp, srs_seed);
@@ -170,6 +315,19 @@ pub fn params_cases(ctx: &mut Ctx, kmax: u32, srs_seed: u64) {
                     if !same {
                         ctx.oracle_fail(&format!("downsize-differs-from-setup:{}", if kp == kmax { "same-k" } else { "smaller" }), "parameters downsized to k' differ from parameters derived for k' from the same secret", json!({"case": desc, "to": kp, "threads": t}));
                     }
+                    if p.g2() != big.g2() || p.s_g2() != big.s_g2() {
+                        ctx.oracle_fail("downsize-touches-g2", "downsize changed g2 / s_g2", json!({"case": desc, "to": kp, "threads": t}));
+                    }
+                    if pi == kp as usize % POOLS.len() {
+                        // the downsized set: write/read in every format, consistent bases, and —
+                        // when the circuit fits — the same keys and interchangeable proofs as a
+                        // fresh setup of that size (commit / open / verify across the two)
+                        let circ = circuit.filter(|c| c.2 == kp);
+                        reload_oracle(ctx, "downsized", &p, kp, s, &json!({"case": desc, "to": kp, "threads": t}), circ);
+                        if let Some((fp, seed, ck)) = circ {
+                            params_interchangeable(ctx, "downsized-vs-fresh", fp, seed, ck, &p, &fresh, json!({"case": desc, "to": kp, "threads": t}));
+                        }
+                    }
                     if pi == 0 {
                         let ok = same
                             && p.g_lagrange().iter().zip(lag.iter()).all(|(q, l)| q.to_affine() == (g * *l).to_affine());
@@ -207,6 +365,33 @@ pub fn params_cases(ctx: &mut Ctx, kmax: u32, srs_seed: u64) {
             &format!("paramsparse fmt={an} {}", hex(&b)),
             &format!("ok k=2 g={} gl={} g2={} sg2={} rest=0 rewrite=1", gs.join(","), gl.join(","), hex(&g2_bytes(&small.g2(), *fa)), hex(&g2_bytes(&small.s_g2(), *fa))),
         );
+        for (fb, bn) in FORMATS.iter() {
+            if !compatible(an, bn) {
+                continue;
+            }
+            let ans = match read_params(&b, *fb) {
+                Ok(Ok(p2)) => {
+                    let re = params_bytes(&p2, *fa);
+                    match slice_params(&re, *fa) {
+                        Some((k2, g2s, gl2, a2, b2)) => {
+                            let acc_ok = gl2.iter().zip(p2.g_lagrange()).all(|(c, q)| *c == g1_bytes(q, *fa)) && gl2.len() == p2.g_lagrange().len();
+                            format!(
+                                "ok k={k2} g={} gl={} g2={} sg2={} rest=0 rewrite={}",
+                                g2s.iter().map(|c| hex(c)).collect::<Vec<_>>().join(","),
+                                if acc_ok { gl2.iter().map(|c| hex(c)).collect::<Vec<_>>().join(",") } else { "ACCESSOR-MISMATCH".into() },
+                                hex(&a2),
+                                hex(&b2),
+                                (re == b) as u8
+                            )
+                        }
+                        None => "unsliceable".into(),
+                    }
+                }
+                Ok(Err(e)) => format!("err {e}"),
+                Err(_) => "panic".into(),
+            };
+            ctx.case("paramsreload", true, &format!("paramsreload wrote={an} read={bn} {}", hex(&b)), &ans);
+        }
         if *an != "U" {
             // (the unchecked reader unwraps every element read: trusted input only)
             let tb = &b[..b.len() - 1];
